@@ -148,7 +148,7 @@ def run(tier, argv):
         plans = [("a", ["vd"], allops, 2, 2, "all"), ("b", ["fr", "vf"], sur, 2, 1, "same"),
                  ("c", ["fvc", "frk", "fvi", "fcv"], ["simulate", "generate"], 1, 2, "all"), ("d", ["fvc", "frk", "fvi"], sur, 2, 1, "all"), ("e", ["fve", "fvcb"], sur, 2, 1, "same")]
     else:
-        plans = [("a", ["vd", "fr"], allops, 2, 2, "all"), ("b", ["vf", "fv"], allops, 2, 1, "same"), ("c", ["fvf", "fvs"], sur, 2, 1, "same"),
+        plans = [("a", ["vd", "fr"], allops, 2, 2, "all"), ("b", ["vf", "fv"], allops, 2, 1, "same"), ("c", ["fvf"], sur, 2, 1, "same"),
                  ("d", ["fvc", "frk", "fvi", "fcv"], ["simulate", "generate"], 1, 2, "all"), ("e", ["fvc", "frk", "fvi", "fcv"], sur, 2, 1, "all"), ("f", ["fe", "fve"], allops, 2, 1, "same")]
     for tag, progs, ops, nops, maxc, ua in plans:
         cfg = gficheck.write_cfg(f"C08_{tier}_{tag}.cfg", progs, nops, ops, maxc, ua, inv, sim_scripts="few")
